@@ -931,7 +931,14 @@ func runStress(k *mon.Case, ps *procState, fam string, early, big bool) {
 						stuck = "handler-stuck"
 					}
 				}
-				k.Failf("fifo:done-never-signalled:"+fam+":"+stuck, "sender %d message #%d (sent on the wire: %v): QueueMessage returned at stamp %d, the first disconnect cause (%s) came at stamp %d, "+
+				// were the peer's handlers ever seen running (the warm-up ping was answered, a queued message or a pong
+				// reached the wire)? If not, Peer.start() may have returned without starting them (a recorded finding);
+				// if they were, a lost completion signal is a different defect
+				ran := "handlers-not-observed"
+				if start == startWarm || len(onWire) > 0 || len(pongs) > 0 {
+					ran = "handlers-ran"
+				}
+				k.Failf("fifo:done-never-signalled:"+fam+":"+stuck+":"+ran, "sender %d message #%d (sent on the wire: %v): QueueMessage returned at stamp %d, the first disconnect cause (%s) came at stamp %d, "+
 					"all peer goroutines have ended (or are stuck, see shutdown:*), and the done channel was never signalled; %s", s.idx, j, sent, rt, o.Cause, tdisc, ctx)
 			}
 		}
